@@ -50,6 +50,8 @@ def one(mon: Monitor, rng: random.Random) -> None:
     ny, nx = dst.shape
     dtype = rng.choice(["uint8", "int16", "uint16", "int32", "float32", "float64"])
     nodata = rng.choice([None, None, 255 if dtype == "uint8" else 9999 if dtype == "uint16" else -9])
+    # explicit destination fill (0 is a legitimate explicit value, different from "not given")
+    dst_nodata = rng.choice([None, None, None, 0, 0, 7])
     tax = rng.random() < 0.35
     shape = ((2,) + (H, W)) if tax else (H, W)
     base = (np.arange(H * W).reshape(H, W) % 97 + 1)
@@ -64,19 +66,20 @@ def one(mon: Monitor, rng: random.Random) -> None:
     resampling = rng.choice(["nearest", "nearest", "bilinear"])
     sched_ = rng.choice(["sync", "sync", "threads"])
     oseed = rng.randint(0, 10**6)
-    cfg = {"src": gen.gbox_desc(src), "dst": gen.gbox_desc(dst), "kind": kind, "dtype": dtype, "nodata": nodata, "time_axis": tax, "src_chunks": sch, "dst_chunks": dch, "resampling": resampling,
+    cfg = {"src": gen.gbox_desc(src), "dst": gen.gbox_desc(dst), "kind": kind, "dtype": dtype, "nodata": nodata, "dst_nodata": dst_nodata, "time_axis": tax, "src_chunks": sch, "dst_chunks": dch, "resampling": resampling,
            "scheduler": sched_, "order_seed": oseed}
     xx = wrap_xr(data, src, nodata=nodata, time=t) if tax else wrap_xr(data, src, nodata=nodata)
     dd = da.from_array(data, chunks=((1,) + sch) if tax else sch)
     xd = wrap_xr(dd, src, nodata=nodata, time=t) if tax else wrap_xr(dd, src, nodata=nodata)
-    a, e = call(lambda: xr_reproject(xx, dst, resampling=resampling).values)
+    dkw = {} if dst_nodata is None else {"dst_nodata": dst_nodata}
+    a, e = call(lambda: xr_reproject(xx, dst, resampling=resampling, **dkw).values)
     if e is not None:
         return mon.fail("whole", {**cfg, "exc": e}, key="whole-raises", cls=kind)
     osig = None
 
     def chunked():
         nonlocal osig
-        lazy = xr_reproject(xd, dst, resampling=resampling, chunks=dch)
+        lazy = xr_reproject(xd, dst, resampling=resampling, chunks=dch, **dkw)
         with random_order(oseed) as sig:
             kw = {"num_workers": rng.choice([2, 4, 8])} if sched_ == "threads" else {}
             out = lazy.compute(scheduler=sched_, **kw).values
@@ -103,13 +106,15 @@ def one(mon: Monitor, rng: random.Random) -> None:
     px, py = S[:, 0].reshape(ny, nx), S[:, 1].reshape(ny, nx)
     fin = np.isfinite(px) & np.isfinite(py)
     far_out = fin & ((px < -2) | (px > W + 2) | (py < -2) | (py > H + 2))
-    fill = nodata if nodata is not None else (np.nan if np.dtype(dtype).kind == "f" else 0)
+    fill = dst_nodata if dst_nodata is not None else nodata if nodata is not None else (np.nan if np.dtype(dtype).kind == "f" else 0)
     isfill = (lambda z: np.isnan(z)) if (isinstance(fill, float) and np.isnan(fill)) else (lambda z: z == fill)
     m = np.broadcast_to(far_out, a.shape)
     ok_fill_a = bool(isfill(a[m]).all())
     ok_fill_b = bool(isfill(b[m]).all())
     mon.check(ok_fill_b and ok_fill_a, "fill-rule", lambda: {**cfg, "fill": repr(fill), "pixels_far_outside": int(far_out.sum()), "not_fill_in_whole": int((~isfill(a[m])).sum()), "not_fill_in_chunked": int((~isfill(b[m])).sum()),
               "chunked_values_there": np.unique(b[m][~isfill(b[m])])[:5]}, key="fill-value", cls=cls + ("|all-outside" if far_out.all() else ""), sig=sig, sample=cfg)
+    if dst_nodata is not None:
+        mon.obs[f"explicit_dst_nodata={dst_nodata}|src_nodata={'given' if nodata is not None else 'none'}|{'float' if np.dtype(dtype).kind == 'f' else 'int'}"] += 1
     if not cross and resampling == "nearest":
         if exact_grid and kind.split("|")[1] in ("shift", "contained", "partial", "touch", "far", "mirror", "scale"):
             cmp_mask = np.ones((ny, nx), dtype=bool)
